@@ -2,6 +2,7 @@
 Model of `Paris.fit` (sknetwork/hierarchy/paris.pyx, property C07) from the construction of the
 `AggregateGraph` on: `similarity`, the nearest-neighbour chain with its tie rule (`min` index), the
 bookkeeping of connected components, their joining at infinite height, the optional reordering.
+The height of a merge is clamped from below by the heights of the two clusters it merges (repaired code).
 
 Generic in the scalar: `Rat` (with `round32 = id`) for the theorems, `Float` with
 `round32 x = x.toFloat32.toFloat` for the runs — the C code keeps `a`, `b`, `den`, `sim`, `max_sim` in
@@ -66,6 +67,18 @@ def nearest (round32 : α → α) (g : AggGraph α) (node : Nat) (nbrs : List Na
       | none => throw .valueError        -- reads an uninitialised C variable
     else pure st) (none, none)
 
+/-- Python's `max(a, b)` on heights -/
+def maxH (a b : HInf α) : HInf α := if a < b then b else a
+
+/-- height of cluster `c` in the rows written so far (`dendrogram[c - n][2]`), for a merged cluster -/
+def heightOf (n : Nat) (rows : List (Row (HInf α))) (c : Nat) (dflt : HInf α) : HInf α :=
+  if c ≥ n then ((rows[c - n]?).map (·.h)).getD dflt else dflt
+
+/-- `height = 1 / max_sim`, then `height = max(height, dendrogram[cluster - n][2])` for the two merged clusters:
+    a merge is never written below the merges it contains -/
+def clampHeight (n : Nat) (rows : List (Row (HInf α))) (h0 : HInf α) (node nn : Nat) : HInf α :=
+  maxH (maxH h0 (heightOf n rows node h0)) (heightOf n rows nn (maxH h0 (heightOf n rows node h0)))
+
 structure PState (α : Type) where
   g : AggGraph α
   chain : List Nat                  -- top of the stack first
@@ -73,7 +86,7 @@ structure PState (α : Type) where
   comps : List (Nat × Nat)          -- connected_components, in push order
 
 /-- one iteration of the two nested `while` loops; `.ok none` = both loops are over -/
-def chainStep (round32 : α → α) (st : PState α) : Except PyErr (Option (PState α)) :=
+def chainStep (round32 : α → α) (n : Nat) (st : PState α) : Except PyErr (Option (PState α)) :=
   match st.chain with
   | [] =>
     -- while len(aggregate_graph.cluster_sizes): for node in cluster_sizes: break
@@ -104,7 +117,8 @@ def chainStep (round32 : α → α) (st : PState α) : Except PyErr (Option (PSt
                 match st.g.sizes.get? node, st.g.sizes.get? nn with
                 | some s1, some s2 =>
                   .ok (some { st with chain := rest',
-                                      rows := st.rows ++ [{ i := node, j := nn, h := .fin (1 / ms), s := s1 + s2 }],
+                                      rows := st.rows ++ [{ i := node, j := nn, h := clampHeight n st.rows (.fin (1 / ms)) node nn,
+                                                             s := s1 + s2 }],
                                       g := st.g.merge node nn })
                 | _, _ => .error .keyError
             else .ok (some { st with chain := nn :: node :: last :: rest' })
@@ -112,13 +126,13 @@ def chainStep (round32 : α → α) (st : PState α) : Except PyErr (Option (PSt
         | .ok _ => .error .valueError
 
 /-- both `while` loops; `none` = out of fuel -/
-def chainLoop (round32 : α → α) : Nat → PState α → Except PyErr (Option (PState α))
+def chainLoop (round32 : α → α) (n : Nat) : Nat → PState α → Except PyErr (Option (PState α))
   | 0, _ => .ok none
   | fuel + 1, st =>
-    match chainStep round32 st with
+    match chainStep round32 n st with
     | .error e => .error e
     | .ok none => .ok (some st)
-    | .ok (some st1) => chainLoop round32 fuel st1
+    | .ok (some st1) => chainLoop round32 n fuel st1
 
 /-- body of `for next_node, next_cluster_size in connected_components`; the accumulator is
     `(dendrogram, node, cluster_size, next_cluster)` -/
@@ -135,7 +149,7 @@ def joinComponents (next : Nat) (comps : List (Nat × Nat)) (rows : List (Row (H
 
 /-- `Paris.fit` from the aggregate graph on, before the optional reordering; `none` = out of fuel -/
 def fitRows (round32 : α → α) (fuel : Nat) (g : AggGraph α) : Except PyErr (Option (List (Row (HInf α)))) := do
-  match ← chainLoop round32 fuel { g := g, chain := [], rows := [], comps := [] } with
+  match ← chainLoop round32 g.next fuel { g := g, chain := [], rows := [], comps := [] } with
   | none => pure none
   | some st =>
     let rows ← joinComponents st.g.next st.comps st.rows
